@@ -30,6 +30,13 @@ CHECKS = {
          "plain (with look-alike names/bytes) => never; empty-password PDF == original. All 81 fixtures and 19 cross-routed fixtures enumerated.",
          "Marker documents: payload behind the marker is pseudo-random or clear, so only detection is tested, not real decryption failure modes; real ciphertext only for PDFs (pypdf writer + reference AES) "
          "and the 11 fixtures. Undefined cases (\\x06DataSpaces only, font-obfuscation-only EPUB) are not judged.", "DESIGN.md §4 C08"),
+ "C12": ("exploration", "amplifier families on a magnitude grid + Hypothesis-drawn magnitudes, each case measured in a forked worker under rlimits; Hypothesis boundary search for the explicit limits with read/decompress spies",
+         "25 amplifier families (repeat attributes, declared dimensions, part reuse, entity constructs, nesting, span attributes, OLE counts/vector lengths, compressor ratios in 7z/tar/zip, 7z header counts, "
+         "PDF loops, mail separators/nesting) x variants x magnitudes up to 10^9 at (near-)constant file size; CPU and peak-RSS growth of extractor+get_full_text+iterate_units against 5 s + 100 us x U and "
+         "64 MiB + 512 x U. Limits: read_file max_file_size at L-1/L/L+1 and 0 (incl. sparse 100 MB + 1), 7z archives of exactly 100 MB -1/0/+1, members at limit -1/0/+1 in zip/tar/tar.gz/7z for "
+         "generated limits and the default 10 MiB, with spies proving oversize members are neither read nor written.",
+         "Cost bounds are thresholds chosen in DESIGN.md, not derived from the code; amplification is sampled by family (unknown amplifiers are left to C01's fuzzers); nine design-level amplifiers "
+         "(dense ODS/XLSX grids, ODT space counts, part reuse in XLSX/EPUB, solid 7z folders) are listed as known findings and excluded above their listed magnitude.", "DESIGN.md §4 C12"),
  "C11": ("exploration", "exhaustive boundary lattice + Hypothesis vectors against an exact-rational reference predicate; forged real ZIP packages with an open/validate event monitor",
          "validate_zipfile is compared with an independently written reference on the complete single-clause boundary lattice and on tens of thousands of generated (entries, limits) vectors built "
          "around the thresholds; 12 real package kinds get extra members with forged central-directory sizes on either side of each DEFAULT limit (incl. 50 000/50 001 entries) and must be rejected "
